@@ -85,6 +85,7 @@ class _Subst(ast.NodeTransformer):
 
 _NEG = {ast.Eq: ast.NotEq, ast.NotEq: ast.Eq, ast.Lt: ast.GtE, ast.GtE: ast.Lt, ast.Gt: ast.LtE, ast.LtE: ast.Gt,
         ast.Is: ast.IsNot, ast.IsNot: ast.Is, ast.In: ast.NotIn, ast.NotIn: ast.In}
+_TURN = {ast.Eq: ast.Eq, ast.NotEq: ast.NotEq, ast.Lt: ast.Gt, ast.Gt: ast.Lt, ast.LtE: ast.GtE, ast.GtE: ast.LtE}
 _ARITH = {ast.Add: lambda a, b: a + b, ast.Sub: lambda a, b: a - b, ast.Mult: lambda a, b: a * b,
           ast.FloorDiv: lambda a, b: a // b, ast.LShift: lambda a, b: a << b, ast.BitOr: lambda a, b: a | b, ast.BitAnd: lambda a, b: a & b}
 
@@ -121,6 +122,9 @@ class _Normal(ast.NodeTransformer):
 
     def visit_Compare(self, n: ast.Compare):
         n = self.generic_visit(n)
+        if len(n.ops) == 1 and isinstance(n.left, ast.Constant) and not isinstance(n.comparators[0], ast.Constant) and type(n.ops[0]) in _TURN:
+            # a constant compared from the left is the same test from the right
+            n = ast.Compare(left=n.comparators[0], ops=[_TURN[type(n.ops[0])]()], comparators=[n.left])
         if len(n.ops) == 1 and _is_parity(n.left) and _is_int(n.comparators[0]):
             k, op = n.comparators[0].value, n.ops[0]
             if (isinstance(op, ast.Eq) and k == 0) or (isinstance(op, ast.NotEq) and k == 1):
